@@ -99,11 +99,18 @@ def run(R, env):
                 rem, n = bool_world_edges(h, pred, val)
                 R.worlds += 1
                 w = h.with_removed(rem).settle()
-                conf = n >= 1
+                conf, moved = True, False
                 for op2, alts2 in shared.state_writes(prog, w, env):
                     for base, d in alts2 or []:
                         if ("total_fees",) in d:
+                            f2 = d[("total_fees",)]
+                            opk2, operand2 = delta_op(f2)
+                            if nm == "native-zero" and opk2 == "+=" and loaded_field(prog, operand2, "state", ["total_native_token"], CRATE):
+                                # total_fees += total_native_token with total_native_token == 0: no change
+                                continue
                             conf = False
+                            moved = True
+                conf = conf and (n >= 1 or nm == "native-zero")
                 R.ob("C01.R4", "LiquidStake:sweep-confined:" + nm, conf, "total_fees is written by LiquidStake although %s (tests found: %d)" % (nm, n), loc=op["loc"], fn=hk)
     else:
         R.ob("C01.R1", "LiquidStake:dispatched", False, "no handler", fn="staking::contract::execute")
@@ -186,7 +193,8 @@ def run(R, env):
     # ------------------------------------------------------------------ R6 (shared rule bodies)
     from engine.runner import Remap
     from . import C07
-    C07.run(Remap(R, {"C07.R4": "C01.R6", "C07.R5": "C01.R6", "C07.R6": "C01.R6", "C07.R7": "C01.R6", "C07.R8": "C01.R6"}), env)
+    R.rule("C01.R7", "what is accounted as forwarded was accepted by the transfer module: every transfer is a reply_on: Always sub-message of the single tracked gate, and the reply fails (rolling back the transaction that accounted it) unless the submission result is Ok with a decodable sequence, which it records as in flight (rule bodies of C07.R1 and C07.R3)")
+    C07.run(Remap(R, {"C07.R4": "C01.R6", "C07.R5": "C01.R6", "C07.R6": "C01.R6", "C07.R7": "C01.R6", "C07.R8": "C01.R6", "C07.R1": "C01.R7", "C07.R3": "C01.R7"}), env)
     # ------------------------------------------------------------------ R5
     ch, nops = shared.field_change_sites(prog, env, CRATE, "state", ["total_native_token"], sites)
     R.floor("C01.R5", "STATE write sites inspected", nops, 8)
